@@ -297,6 +297,14 @@ func (w *provWalker) walk(v ssa.Value, depth int) {
 	}
 	w.seen[v] = depth + 1
 	w.nodes++
+	// an error that is known to be nil where it is used is nil, however it is spelt
+	// (`return x, err` after `if err != nil { return … }` and `return x, nil` are the same return)
+	if w.use != nil && isErrorType(v.Type()) {
+		if _, isConst := v.(*ssa.Const); !isConst && w.use.Block() != nil && w.use.Parent() == w.fn && dominatedByNilEdge(w.use.Block(), func(x ssa.Value) bool { return x == v }, true) {
+			w.roots["nil"] = true
+			return
+		}
+	}
 	switch x := v.(type) {
 	case *ssa.Const:
 		if x.Value == nil {
@@ -423,20 +431,45 @@ func (w *provWalker) walk(v ssa.Value, depth int) {
 	case *ssa.FieldAddr, *ssa.IndexAddr:
 		w.addr(x, depth)
 	case *ssa.Call:
+		// a generated accessor (`m.GetField()` of a message that has the field `Field` of the result's
+		// type) is the field read
+		if sc := x.Call.StaticCallee(); sc != nil && sc.Signature.Recv() != nil && strings.HasPrefix(sc.Name(), "Get") && len(x.Call.Args) == 1 && sc.Signature.Results().Len() == 1 {
+			if pt, ok := sc.Signature.Recv().Type().Underlying().(*types.Pointer); ok {
+				if st, ok := pt.Elem().Underlying().(*types.Struct); ok {
+					for i := 0; i < st.NumFields(); i++ {
+						if st.Field(i).Name() == strings.TrimPrefix(sc.Name(), "Get") && types.Identical(st.Field(i).Type(), sc.Signature.Results().At(0).Type()) {
+							ci, _ := canonField(sc.Signature.Recv().Type(), i)
+							w.roots[fmt.Sprintf("f%d:%s", ci, typeKey(st.Field(i).Type()))] = true
+							w.walk(x.Call.Args[0], depth)
+							return
+						}
+					}
+				}
+			}
+		}
 		id := calleeID(x.Common())
 		if !strings.HasPrefix(id, "B:") {
 			w.roots["c:"+id] = true
 		}
 		// what the call was applied to matters (which builder, which backend),
 		// but only nearby: the inputs of a call that feeds the value are followed, those of calls feeding *them* are not
-		if depth >= 1 {
+		// time and math values are computed with calls (`t.Add(d).Sub(now)`): that is arithmetic, and
+		// which duration goes into it matters as much as which operand of a `+`
+		next := depth + 1
+		if sc := x.Call.StaticCallee(); sc != nil && sc.Pkg != nil {
+			switch sc.Pkg.Pkg.Path() {
+			case "time", "math", "math/bits":
+				next = depth
+			}
+		}
+		if depth >= 1 && next > depth {
 			return
 		}
 		if x.Call.IsInvoke() {
-			w.walk(x.Call.Value, depth+1)
+			w.walk(x.Call.Value, next)
 		}
 		for _, a := range x.Call.Args {
-			w.walk(a, depth+1)
+			w.walk(a, next)
 		}
 	case *ssa.Extract:
 		w.roots[fmt.Sprintf("#%d", x.Index)] = true
@@ -545,6 +578,12 @@ func collectProv(p *Program, pkgs []string) map[string]map[string][]provSite {
 							}
 							break
 						}
+						if x, _, isNT := nilTest(cond); isNT && isErrorType(x.Type()) {
+							// whether an error is nil: which error variable carries it there is a matter of
+							// style (one `err` re-used, or one per call); what is done on either side is
+							// what the skip rules look at
+							return
+						}
 						if bo, ok := cond.(*ssa.BinOp); ok {
 							// which quantities are compared – not against which small number
 							// (loop bounds and counters are respelled freely)
@@ -604,6 +643,13 @@ func collectProv(p *Program, pkgs []string) map[string]map[string][]provSite {
 						judged = moduleIface(cc.Value.Type()) != nil
 					} else if sc := cc.StaticCallee(); sc != nil && sc.Pkg != nil && strings.HasPrefix(sc.Pkg.Pkg.Path(), modPath) && sc.Parent() == nil {
 						judged = true
+					} else if sc != nil && sc.Pkg != nil && sc.Signature.Recv() != nil && sc.Parent() == nil {
+						// a method of a library object that coordinates or carries state (which errgroup a
+						// goroutine is started on, which wait group, which pool, which writer)
+						switch sc.Pkg.Pkg.Path() {
+						case "golang.org/x/sync/errgroup", "sync", "golang.org/x/sync/semaphore", "container/heap", "bufio", "io", "os":
+							judged = true
+						}
 					}
 					if !judged {
 						return
